@@ -376,6 +376,57 @@ func c08Spellings(r *core.Run) {
 	r.Merge(l)
 }
 
+// c08Leaking: regex segments whose bind expressions compile one by one but not as written side by side (a \Q
+// left open by one is closed by the next). Whether such a route is refused or accepted is asserted neither way
+// (the pinned tree accepted them, the repaired tree refuses them); what the statement fixes is that a route
+// does not fail later, during a request: if it is accepted, requests around its texts are served without panic.
+func c08Leaking(r *core.Run) {
+	texts := []string{`/{x: /(a)\Q/}{y: /\Qb\E/}`, `/f/{a: /x\Q/}-{b: /\Q\Ey/}`, `/f/{a: /x\Q/}-{b: /\Q\Ey/}/t`, `/{a: /\Q(/}{b: /\E)/}`, `/g/{a: /[\Q]/}.{b: /[\E]/}`, `/{a: /x\Q/}`}
+	probes := []string{"/f/x-y", "/f/x-y/t", "/a)(\\Qb", "/ab", "/f/x-\\Ey", "/x", "/()", "/g/].[", "/g/Q.E", "/f/x\\Q-\\Ey"}
+	l := core.NewLocal()
+	for _, t := range texts {
+		for _, meth := range []string{"GET", "*"} {
+			f := flamego.NewWithLogger(io.Discard)
+			l.Evals++
+			l.Transitions++
+			l.Traces++
+			l.States++
+			l.NonTrivial++
+			refused := func() (pv interface{}) {
+				defer func() { pv = recover() }()
+				f.Route(meth, t, []flamego.Handler{func(c flamego.Context) { c.ResponseWriter().WriteHeader(204) }})
+				return nil
+			}()
+			if refused != nil {
+				if msg := fmt.Sprint(refused); !strings.HasPrefix(msg, "unable to parse route") && !strings.HasPrefix(msg, "unable to add route") {
+					l.Violate("flame/runtime-panic-at-registration/leaking-expression", fmt.Sprintf("registering %q died with %v instead of the documented registration panic", t, refused), c08Case{Candidate: t, Method: meth, Flame: true, RegMethods: []string{"leaking"}})
+					continue
+				}
+				l.Class("candidate:reject")
+				continue
+			}
+			bad := ""
+			for _, pth := range probes {
+				func() {
+					defer func() {
+						if pv := recover(); pv != nil && bad == "" {
+							bad = fmt.Sprintf("%q was accepted at registration and serving GET %q then panicked: %v", t, pth, pv)
+						}
+					}()
+					f.ServeHTTP(&c01Spy{hdr: http.Header{}}, newReq("GET", pth))
+				}()
+			}
+			if bad != "" {
+				l.Class("mismatch")
+				l.Violate("flame/fails-later-during-a-request/leaking-expression", bad, c08Case{Candidate: t, Method: meth, Flame: true, RegMethods: []string{"leaking"}})
+			} else {
+				l.Class("candidate:accept")
+			}
+		}
+	}
+	r.Merge(l)
+}
+
 func c08RoutesLists(r *core.Run) {
 	valid := map[string][]string{"GET": {"GET"}, "GET,POST": {"GET", "POST"}, "GET, POST": {"GET", "POST"}, " get ,post ": {"GET", "POST"}, "put,PATCH,delete": {"PUT", "PATCH", "DELETE"}}
 	invalid := []string{"GET POST", "GET\tPOST", "GET,", ",GET", "GET,,POST", "GET, ,POST", ",", " ", "", "GETT", "GET,BREW", "GET;POST", "GET\nPOST"}
@@ -575,6 +626,7 @@ func c08Run(r *core.Run) {
 	c08Siblings(r, p)
 	c08RoutesLists(r)
 	c08Spellings(r)
+	c08Leaking(r)
 
 	// flame level: methods, panics
 	methods := []string{"GET", "POST", "PUT", "DELETE", "PATCH", "OPTIONS", "HEAD", "CONNECT", "TRACE", "*", "get", "BREW", "", "GET,POST", " GET"}
@@ -762,6 +814,22 @@ func c08Replay(raw json.RawMessage) (bool, string) {
 		c08RoutesLists(sub)
 		if sub.HasViolations() {
 			return true, "a method list given to Routes is not handled as the statement says (the whole list phase was re-run)"
+		}
+		return false, ""
+	}
+	if c.Flame && len(c.RegMethods) == 1 && c.RegMethods[0] == "leaking" {
+		sub := core.NewRun("C08", "quick")
+		c08Leaking(sub)
+		if sub.HasViolations() {
+			return true, "a regex segment whose expressions leak into each other fails during a request (the whole phase was re-run)"
+		}
+		return false, ""
+	}
+	if c.Flame && len(c.Registered) == 1 && len(c.RegMethods) == 1 && c.Registered[0] != c.Candidate && strings.NewReplacer(" ", "").Replace(c.Registered[0]) == strings.NewReplacer(" ", "").Replace(c.Candidate) {
+		sub := core.NewRun("C08", "quick")
+		c08Spellings(sub)
+		if sub.HasViolations() {
+			return true, "two spellings of one route are not treated as one route (the whole phase was re-run)"
 		}
 		return false, ""
 	}
